@@ -119,7 +119,15 @@ func (ex *Exec) checkAsserts(fr *Frame, st *State, key string, names []string, p
 	}
 	var env *CEnv
 	for _, cl := range c.Clauses {
-		if cl.Kind != "assert" || !tagActive(cl.Tags, ex.prop) || !strings.Contains(key, cl.Names[0]) {
+		if cl.Kind != "assert" || !tagActive(cl.Tags, ex.prop) {
+			continue
+		}
+		if strings.HasPrefix(cl.Names[0], "flag:") {
+			cc := ex.lib.Contracts[key]
+			if cc == nil || !cc.Flags[strings.TrimPrefix(cl.Names[0], "flag:")] {
+				continue
+			}
+		} else if !strings.Contains(key, cl.Names[0]) {
 			continue
 		}
 		if env == nil {
@@ -134,7 +142,11 @@ func (ex *Exec) checkAsserts(fr *Frame, st *State, key string, names []string, p
 			}
 			for i, n := range names {
 				if i < len(args) {
-					env.vars[n] = TV{args[i], ptypes[i]}
+					// the caller's own names win over the callee's parameter names
+					if _, clash := env.vars[n]; !clash {
+						env.vars[n] = TV{args[i], ptypes[i]}
+					}
+					env.vars["callee_"+n] = TV{args[i], ptypes[i]}
 				}
 			}
 		}
@@ -142,9 +154,16 @@ func (ex *Exec) checkAsserts(fr *Frame, st *State, key string, names []string, p
 		if label == "" {
 			label = fmt.Sprint(cl.Ord)
 		}
-		ord := ex.nextCallOrd(fr, "assert:"+cl.Names[0]+":"+label, pos)
+		site := lastSeg(cl.Names[0])
+		if strings.HasPrefix(cl.Names[0], "flag:") {
+			site = lastSeg(key)
+			if fr.depth > 0 {
+				site = lastSeg(funcKey(fr.fn)) + ">" + site
+			}
+		}
+		ord := ex.nextCallOrd(fr, "assert:"+site+":"+label, pos)
 		g := ex.evalBool(cl.E, env)
-		ex.addObl(st, "assert", ex.oblName("assert", fmt.Sprintf("#%s@%s#%d", label, lastSeg(cl.Names[0]), ord)), g, pos, cl.Text)
+		ex.addObl(st, "assert", ex.oblName("assert", fmt.Sprintf("#%s@%s#%d", label, site, ord)), g, pos, cl.Text)
 		cl.Reached = true
 	}
 }
@@ -213,6 +232,23 @@ func (ex *Exec) callStaticBind(fr *Frame, st *State, fn *ssa.Function, args []Va
 		return r
 	}
 	inlinable := len(fn.Blocks) > 0 && (isRepoFunc(fn) || ex.lib.Contracts["inline:"+key] != nil)
+	if inlinable && fn.Parent() == nil {
+		// size limit: large helpers (tables, decoders) are not inlined; they count as
+		// callees without contract (results unconstrained) and are listed in the evidence
+		n := 0
+		for _, b := range fn.Blocks {
+			n += len(b.Instrs)
+		}
+		limit := 500
+		if !samePackage(fn, ex.topFrame.fn) && !(ex.lib.Contracts[key] != nil && ex.lib.Contracts[key].Flags["inline"]) {
+			// functions of other /repo packages are used through their contracts only
+			limit = 0
+		}
+		if n > limit {
+			ex.warn("callee %s not inlined (%d instructions): treated as arbitrary", shortKey(key), n)
+			inlinable = false
+		}
+	}
 	if inlinable {
 		// rule 2/3: inline
 		for _, s := range fr.stack {
@@ -226,6 +262,7 @@ func (ex *Exec) callStaticBind(fr *Frame, st *State, fn *ssa.Function, args []Va
 			return ex.havocCall(fr, st, key, args, fsig, pos)
 		}
 		ex.inlined[shortKey(key)] = true
+		ex.inlineCount[shortKey(key)]++
 		st.Tracef("%s: inline %s", ex.pos(pos), shortKey(key))
 		nfr := &Frame{fn: fn, env: map[ssa.Value]Val{}, loopCut: map[*ssa.BasicBlock]bool{}, args: args, depth: fr.depth + 1,
 			stack: append(append([]*ssa.Function(nil), fr.stack...), fn)}
@@ -307,7 +344,7 @@ var pureFuncs = map[string]bool{
 	"strings.ToUpper": true, "strings.Count": true, "strings.Repeat": true, "strings.SplitN": true, "unicode/utf8.ValidString": true,
 	"(time.Time).After": true, "(time.Time).Before": true, "(time.Time).Sub": true, "(time.Time).Add": true, "(time.Time).IsZero": true,
 	"(time.Duration).Milliseconds": true, "(time.Duration).Seconds": true, "(time.Duration).String": true, "(time.Time).UnixNano": true,
-	"os.IsTimeout": true, "os.IsExist": true, "os.IsNotExist": true, "os.IsPermission": true, "errors.Unwrap": true,
+	"(fmt.Stringer).String": true, "os/user.Current": true, "os.IsTimeout": true, "os.IsExist": true, "os.IsNotExist": true, "os.IsPermission": true, "errors.Unwrap": true,
 	"time.Parse": true, "net/http.ParseTime": true, "(time.Time).Equal": true, "(time.Time).Unix": true,
 }
 
@@ -365,6 +402,34 @@ func (ex *Exec) applyContract(fr *Frame, st *State, c *Contract, obj *types.Func
 func (ex *Exec) applyContractNamed(fr *Frame, st *State, c *Contract, names []string, ptypes []types.Type, sig *types.Signature, args []Val, pos token.Pos, fn *ssa.Function) []Outcome {
 	c.Used = true
 	key := c.Key
+	for _, a := range args {
+		if fv, ok := a.(*FuncV); ok && fv.Fn != nil && fv.Fn.Parent() != nil && isRepoFunc(fv.Fn) && fr.depth < ex.maxDepth {
+			// a callee used by contract may invoke the closure it is handed, at any time and with any
+			// arguments: run the body once on a copy of the state (heap unknown) so that the obligations
+			// inside it are generated; its effects on captured variables are havoc for the caller
+			st2 := st.Clone()
+			ex.markEscaped(st2, []Val{fv})
+			ex.havocHeap(st2)
+			var cargs []Val
+			for _, p := range fv.Fn.Params {
+				cargs = append(cargs, ex.freshVal(st2, p.Type(), "cb_"+p.Name()))
+			}
+			st2.Tracef("%s: callback %s may be invoked by %s", ex.pos(pos), fv.Fn.Name(), shortKey(key))
+			nfr := &Frame{fn: fv.Fn, env: map[ssa.Value]Val{}, loopCut: map[*ssa.BasicBlock]bool{}, args: cargs, depth: fr.depth + 1,
+				stack: append(append([]*ssa.Function(nil), fr.stack...), fv.Fn)}
+			for i, p := range fv.Fn.Params {
+				nfr.env[p] = cargs[i]
+			}
+			ex.bindFreeVars(nfr, fv.Fn, fv.Bind)
+			ex.runBlock(nfr, st2, fv.Fn.Blocks[0], 0)
+			ex.markEscaped(st, []Val{fv})
+			for c := range st.cells {
+				if c.Escaped {
+					st.cells[c] = ex.freshVal(st, c.T, c.Name)
+				}
+			}
+		}
+	}
 	if c.Extern {
 		ex.usedExtern[key] = true
 	}
@@ -414,6 +479,36 @@ func (ex *Exec) applyContractNamed(fr *Frame, st *State, c *Contract, names []st
 	}
 	// results
 	rs := ex.freshResults(st, sig, sanitizeName(lastSeg(key)))
+	// a pure function whose contract defines its single scalar result ("ensures r == e") returns e itself:
+	// equal calls then yield syntactically equal terms (fewer forks, smaller queries)
+	if c.Flags["pure"] && len(rs) == 1 {
+		rname := ""
+		if sig.Results().Len() == 1 {
+			rname = sig.Results().At(0).Name()
+		}
+		if len(c.ResNames) == 1 {
+			rname = c.ResNames[0]
+		}
+		if _, isTerm := rs[0].(*Term); isTerm {
+			for _, cl := range c.Clauses {
+				if cl.Kind != "ensures" || !tagActive(cl.Tags, ex.prop) {
+					continue
+				}
+				if b, ok := cl.E.(*EBin); ok && b.Op == "==" {
+					if id, ok := b.X.(*EIdent); ok && (id.Name == rname || id.Name == "result") && rname != "" || (ok && id.Name == "result") {
+						want := rs[0].(*Term).Sort
+						v := ex.eval(b.Y, env, want)
+						if t := ex.tvTerm(env, v, want); t != nil && t.Sort == want {
+							t2 := *t
+							t2.Signed = rs[0].(*Term).Signed
+							rs[0] = &t2
+							break
+						}
+					}
+				}
+			}
+		}
+	}
 	env2 := &CEnv{ex: ex, st: st, old: old, vars: map[string]TV{}, fn: fr.fn, pkg: env.pkg}
 	for k, v := range env.vars {
 		env2.vars[k] = v
@@ -443,6 +538,9 @@ func (ex *Exec) applyContractNamed(fr *Frame, st *State, c *Contract, names []st
 	if len(rs) == 1 {
 		env2.vars["result"] = TV{rs[0], rts[0]}
 	}
+	if n := len(rs); n > 0 && isErrorType(rts[n-1]) {
+		env2.vars["lasterr"] = TV{rs[n-1], rts[n-1]}
+	}
 	for _, cl := range c.Clauses {
 		if !tagActive(cl.Tags, ex.prop) {
 			continue
@@ -455,6 +553,9 @@ func (ex *Exec) applyContractNamed(fr *Frame, st *State, c *Contract, names []st
 	for _, cl := range c.Clauses {
 		if cl.Kind == "ensures" && tagActive(cl.Tags, ex.prop) {
 			st.Assume(ex.evalBool(cl.E, env2))
+			if cl.Assumed {
+				ex.usedExtern["trusted clause about "+shortKey(key)+": "+cl.Text] = true
+			}
 		}
 	}
 	if c.Flags["ctx-check"] {
@@ -613,7 +714,10 @@ func (ex *Exec) builtin(fr *Frame, st *State, name string, args []Val, cc *ssa.C
 			}
 		}
 	case "recover":
-		return one(&IfaceV{Sym: ex.freshTerm("recovered", SRef, false)})
+		// panics raised inside dependencies are not modelled: on the paths executed here
+		// nothing is panicking, so recover() yields nil (listed as an engine note)
+		ex.warn("recover() modelled as returning nil (panics raised by dependencies are not modelled)")
+		return one(&IfaceV{Nil: true})
 	case "ssa:wrapnilchk":
 		return one(args[0])
 	case "ssa:deferstack":
@@ -678,4 +782,21 @@ func (ex *Exec) appendSlices(st *State, s, t *SliceV) Val {
 		na.S, s.Len.S, a.S, b.S, s.Len.S, na.S), Sort: SBool})
 	st.heap[key] = store(ex.heapArrE(st, key, as), r.Back, na)
 	return r
+}
+
+func samePackage(a, b *ssa.Function) bool {
+	pa, pb := a, b
+	for pa.Parent() != nil {
+		pa = pa.Parent()
+	}
+	for pb.Parent() != nil {
+		pb = pb.Parent()
+	}
+	if o := pa.Origin(); o != nil {
+		pa = o
+	}
+	if o := pb.Origin(); o != nil {
+		pb = o
+	}
+	return pa.Pkg != nil && pa.Pkg == pb.Pkg
 }
